@@ -120,7 +120,6 @@ Definition cr_in p o := @proj_in p o _ credit cr_next (credit_mon_event p) (fun 
 Definition cr_ret p o := @proj_ret p o _ credit cr_next (credit_mon_event p) (fun _ _ _ => eq_refl).
 Definition subd_in p o := @proj_in p o _ subd subd_next (subd_mon_event p) (fun _ _ _ => eq_refl).
 Definition subd_ret p o := @proj_ret p o _ subd subd_next (subd_mon_event p) (fun _ _ _ => eq_refl).
-About sk_in. About sk_ret.
 
 (** ** The monitor's counters are the trace counts (every operator, every
     trace): [npull _ 0] counts [EIn (IUp 0 UP)], [ndata _ 0] counts
@@ -196,7 +195,6 @@ Section ForEachFlow.
   Variable p : mparams.
   Hypothesis Hns : nsinks p = 1.
   Hypothesis Hresub : resub p = false.
-  Hypothesis Hnonest : no_nest p = false.
   Hypothesis Hc14 : c14 p = false.
   Let o := for_each_op.
 
@@ -220,7 +218,7 @@ Section ForEachFlow.
       pose proof (step_in_trace p c inp Hlive Hdel Hh) as Ht.
       assert (Htb : forall v, inp = IDn 0 (DD v) -> cst c = true).
       { intros v ->. destruct HI. apply i_tb.
-        apply (enabled_dn_live _ _ _ _ _ ltac:(discriminate) He). }
+        eapply enabled_dn_live; [|exact He]. discriminate. }
       cbn in Hh.
       constructor; rewrite ?Hus, ?Hsb, ?Ht, ?pout_step, ?hin_step, ?din_step, ?IH3.
       all: destruct inp as [[|s] aux|[|s] u|[|i] [|v|e|]|s];
@@ -231,7 +229,7 @@ Section ForEachFlow.
       pose proof (us_ret p c Hlive Hst Hres 0) as Hus.
       pose proof (subd_ret p c Hlive Hst Hres 0) as Hsb.
       pose proof (step_ret_trace p c Hlive Hst Hres) as Ht.
-      constructor; rewrite ?Hus, ?Hsb, ?Ht, ?pout_step, ?hin_step, ?din_step, ?IH3; cbn; auto.
+      constructor; rewrite ?Hus, ?Hsb, ?Ht, ?pout_step, ?hin_step, ?din_step, ?IH3; cbn; auto; lia.
   Qed.
 
   Lemma fe_calls : calls_sat only_up o.
@@ -249,9 +247,293 @@ Theorem for_each_sink_flow p :
   sink_flow for_each_op p.
 Proof.
   intros H1 H2 H3 H4. constructor.
-  - intros c Hr. exact (fe_pulls (fe_reach H1 H2 H3 H4 Hr)).
-  - intros c Hr. exact (fe_nostop (fe_reach H1 H2 H3 H4 Hr)).
-  - intros c Hr. exact (fe_subd (fe_reach H1 H2 H3 H4 Hr)).
+  - intros c Hr. exact (fe_pulls (fe_reach H1 H2 H4 Hr)).
+  - intros c Hr. exact (fe_nostop (fe_reach H1 H2 H4 Hr)).
+  - intros c Hr. exact (fe_subd (fe_reach H1 H2 H4 Hr)).
   - exact fe_calls.
 Qed.
 Print Assumptions for_each_sink_flow.
+
+(** ** (2) from_iter, when the sink sends at most one Pull per message received *)
+Section FromIterFlow.
+  Variable it : nat -> option val.
+  Variable p : mparams.
+  Hypothesis Hns : nsinks p = 1.
+  Hypothesis Hc14 : c14 p = false.
+  Hypothesis Hone : one_pull p = true.
+  Notation o := (from_iter_op it).
+
+  Definition flag (b : bool) : nat := if b then 1 else 0.
+
+  (** the counting invariant of Inv_from_iter_pull.v, over the trace counts:
+      while the sink is live a Pull is answered or pending in the flag, and the
+      sink has had one message more than it sent Pulls, less its credit *)
+  Record SInv (c : cfg o) : Prop := {
+    s_zero : sk (ms c) 0 = SNone ->
+             credit (ms c) 0 = 0 /\ pin (trace c) = 0 /\ dout (trace c) = 0;
+    s_gp : sk (ms c) 0 = SLive -> fi_in_loop (cst c) = false -> fi_got_pull (cst c) = false;
+    s_cnt : sk (ms c) 0 = SLive ->
+            dout (trace c) + flag (fi_got_pull (cst c)) = pin (trace c) /\
+            credit (ms c) 0 + pin (trace c) = S (dout (trace c));
+  }.
+
+  Lemma sinv_over (c : cfg o) : sk_over (sk (ms c) 0) = true -> SInv c.
+  Proof.
+    intros H. constructor; intros E; rewrite E in H; discriminate.
+  Qed.
+
+  Lemma over_in (c : cfg o) i :
+    enabled p g_std c (MIn i) = true ->
+    sk_over (sk_next (sk (ms c) 0) 0 (EIn i)) = true -> SInv (step p c (MIn i)).
+  Proof.
+    intros He Hov.
+    pose proof (enabled_live _ _ _ _ He) as Hlive.
+    pose proof (enabled_deliverable _ _ _ _ He) as Hdel.
+    destruct (handle o i (cst c)) as [[s' os] a] eqn:Hh.
+    apply sinv_over. rewrite (sk_in p c i Hlive Hdel Hh 0). now apply sk_next_over.
+  Qed.
+
+  Lemma over_ret (c : cfg o) :
+    enabled p g_std c MRet = true -> sk_over (sk (ms c) 0) = true -> SInv (step p c MRet).
+  Proof.
+    intros He Hov.
+    pose proof (enabled_live _ _ _ _ He) as Hlive.
+    destruct (enabled_ret_stack _ _ _ He) as (k & cl & rest & Hst).
+    destruct (resume o k (cst c)) as [[s' os] a] eqn:Hres.
+    apply sinv_over. rewrite (sk_ret p c Hlive Hst Hres 0). now apply sk_next_over.
+  Qed.
+
+  Ltac done_ :=
+    intros; try discriminate;
+    repeat match goal with
+           | H : ?A -> _, H' : ?A |- _ => specialize (H H')
+           | H : _ /\ _ |- _ => destruct H
+           end;
+    unfold flag in *; cbn in *;
+    try (repeat split; (lia || congruence || assumption)).
+
+  (** after an input step whose [handle] is known: every field of [SInv] as an
+      expression over the old configuration *)
+  Ltac after_in c i Hlive Hdel Hh Esk :=
+    let Hc := fresh "Hc" in let Hsk := fresh "Hsk" in let Hcr := fresh "Hcr" in
+    let Ht := fresh "Ht" in
+    destruct (step_in p c i Hlive Hdel Hh) as (Hc & _);
+    pose proof (sk_in p c i Hlive Hdel Hh 0) as Hsk;
+    pose proof (cr_in p c i Hlive Hdel Hh 0) as Hcr;
+    pose proof (step_in_trace p c i Hlive Hdel Hh) as Ht;
+    rewrite Esk in Hsk; cbn in Hsk; cbn in Hcr.
+
+  Ltac after_ret c Hlive Hst Hres Esk :=
+    let Hc := fresh "Hc" in let Hsk := fresh "Hsk" in let Hcr := fresh "Hcr" in
+    let Ht := fresh "Ht" in
+    destruct (step_ret p c Hlive Hst Hres) as (Hc & _);
+    pose proof (sk_ret p c Hlive Hst Hres 0) as Hsk;
+    pose proof (cr_ret p c Hlive Hst Hres 0) as Hcr;
+    pose proof (step_ret_trace p c Hlive Hst Hres) as Ht;
+    rewrite Esk in Hsk; cbn in Hsk; cbn in Hcr.
+
+  Lemma si_reach (c : cfg o) : reach p g_std c -> SInv c.
+  Proof.
+    induction 1 as [|c m Hr IH He].
+    { constructor; cbn; intros; try discriminate; auto. }
+    pose proof (Inv_from_iter.inv_reach Hns Hc14 Hr) as HI.
+    pose proof (Inv_from_iter.i_shape HI) as Hshape.
+    pose proof (Inv_from_iter.i_subd HI) as Hsubd.
+    pose proof (Inv_from_iter.i_compl HI) as Hcompl.
+    pose proof (Inv_from_iter.i_rdone HI) as Hrdone.
+    pose proof (Inv_from_iter.i_us HI) as Hus.
+    pose proof (Inv_from_iter.i_sk_other HI) as Hsko.
+    pose proof (Inv_from_iter.i_task HI) as Htask.
+    clear HI. destruct IH as [IZ IG IC].
+    destruct m as [[s aux|s u|i d|s]|].
+    - (* the sink subscribes: greeted from inside *)
+      start_in He Hlive Hdel Hg.
+      cbn in He, Hg. rewrite Hns in He. destruct aux; [|discriminate].
+      destruct (at_top c) eqn:Htop; cbn in He; try discriminate.
+      destruct s; cbn in He; try discriminate.
+      apply negb_true_iff in He. rewrite He in Hsubd.
+      destruct (sk (ms c) 0) eqn:Esk; try discriminate.
+      destruct (IZ eq_refl) as (Hcr0 & Hpi0 & Hdo0).
+      assert (Hh : handle o (ISub 0 0) (cst c) =
+                   ({| fi_pos := 0; fi_in_loop := false; fi_got_pull := false;
+                       fi_completed := false; fi_res_done := false |},
+                    [], ACall (CDn 0 DH) FiDone)) by reflexivity.
+      after_in c (ISub 0 0) Hlive Hdel Hh Esk.
+      constructor; rewrite ?Hc, ?Hsk, ?Hcr, ?Ht, ?pin_step, ?dout_step; cbn; done_.
+    - (* the sink uses the talkback *)
+      pose proof He as He0.
+      start_in He Hlive Hdel Hg.
+      cbn -[Nat.ltb] in He. apply andb_prop in He. destruct He as [He Hu].
+      apply andb_prop in He. destruct He as [Htop Hsk0].
+      destruct s as [|s]; [|rewrite Hsko in Hsk0 by lia; discriminate].
+      destruct (sk (ms c) 0) eqn:Esk; try discriminate.
+      destruct u as [|e|].
+      2,3: apply over_in; [exact He0 | rewrite Esk; reflexivity].
+      rewrite Hone in Hu. cbn -[Nat.ltb] in Hu. apply Nat.ltb_lt in Hu.
+      specialize (IG eq_refl). destruct (IC eq_refl) as [Hn Hco]. clear IC IZ.
+      destruct (cst c) as [pos il gp cp rd] eqn:Ecst. cbn -[Nat.ltb] in *. subst cp rd.
+      destruct Hshape as (b & Hb & [(Hil & Hst) | [(Hil & Hk & v0 & Hst) | (Hil & Hk & Hst)]]);
+        try discriminate; subst il.
+      + (* no loop is running: no Pull is pending; run the loop *)
+        specialize (IG eq_refl). subst gp. unfold flag in Hn.
+        destruct (it pos) as [v|] eqn:Eit.
+        * assert (Hh : handle o (IUp 0 UP) (cst c) =
+                       ({| fi_pos := S pos; fi_in_loop := true; fi_got_pull := false;
+                           fi_completed := false; fi_res_done := false |},
+                        [ONext (Some v)], ACall (CDn 0 (DD v)) FiLoop)).
+          { rewrite Ecst. cbn. unfold fi_loop. cbn. now rewrite Eit. }
+          after_in c (IUp 0 UP) Hlive Hdel Hh Esk.
+          constructor; rewrite ?Hc, ?Hsk, ?Hcr, ?Ht, ?pin_step, ?dout_step; cbn; done_.
+        * assert (Hh : handle o (IUp 0 UP) (cst c) =
+                       ({| fi_pos := S pos; fi_in_loop := true; fi_got_pull := false;
+                           fi_completed := false; fi_res_done := true |},
+                        [ONext None], ACall (CDn 0 DT) FiAfterBreak)).
+          { rewrite Ecst. cbn. unfold fi_loop. cbn. now rewrite Eit. }
+          after_in c (IUp 0 UP) Hlive Hdel Hh Esk.
+          apply sinv_over. now rewrite Hsk.
+      + (* inside the Data delivery of the running loop: only the flag.  The sink
+           has a credit, so the flag is not yet set: no coalescing *)
+        assert (Hgp : gp = false).
+        { destruct gp; [|reflexivity]. unfold flag in Hn. lia. }
+        subst gp. unfold flag in Hn.
+        assert (Hh : handle o (IUp 0 UP) (cst c) =
+                     ({| fi_pos := pos; fi_in_loop := true; fi_got_pull := true;
+                         fi_completed := false; fi_res_done := false |}, [], ARet))
+          by (rewrite Ecst; reflexivity).
+        after_in c (IUp 0 UP) Hlive Hdel Hh Esk.
+        constructor; rewrite ?Hc, ?Hsk, ?Hcr, ?Ht, ?pin_step, ?dout_step; cbn; done_.
+    - (* there is no upstream *)
+      exfalso. start_in He Hlive Hdel Hg.
+      cbn in He. apply andb_prop in He. destruct He as [_ He].
+      rewrite Hus in He. destruct d; cbn in He; discriminate.
+    - exfalso. unfold enabled in He.
+      repeat (apply andb_prop in He; destruct He as [? He]).
+      cbn in He. now rewrite Htask in He.
+    - (* a delivery returns *)
+      pose proof (enabled_live _ _ _ _ He) as Hlive.
+      destruct (enabled_ret_stack _ _ _ He) as (k & cl & rest & Hst0).
+      destruct (sk (ms c) 0) eqn:Esk.
+      3,4: apply over_ret; [exact He | rewrite Esk; reflexivity].
+      + (* not greeted: nothing is pending *)
+        exfalso. pose proof (Inv_from_iter.i_none (Inv_from_iter.inv_reach Hns Hc14 Hr)) as Hn.
+        rewrite Esk in Hn. destruct (Hn eq_refl) as [Hn1 _]. rewrite Hn1 in Hst0. discriminate.
+      + specialize (IG eq_refl). destruct (IC eq_refl) as [Hn Hco]. clear IC IZ.
+        destruct Hshape as (b & Hb & [(Hil & Hst) | [(Hil & Hk & v0 & Hst) | (Hil & Hk & Hst)]]);
+          try discriminate.
+        * (* the subscribing activation returns from the Handshake delivery *)
+          destruct Hb as [-> | ->]; rewrite Hst in Hst0; [discriminate|].
+          assert (Hres : resume o FiDone (cst c) = (cst c, [], ARet)) by reflexivity.
+          after_ret c Hlive Hst Hres Esk.
+          constructor; rewrite ?Hc, ?Hsk, ?Hcr, ?Ht, ?pin_step, ?dout_step; cbn; done_.
+        * (* back at the while condition after a Data delivery *)
+          rewrite Hst in Hst0. inversion Hst0; subst k cl rest.
+          destruct (cst c) as [pos il gp cp rd] eqn:Ecst. cbn in *. subst il cp rd.
+          destruct gp.
+          -- (* one more iteration: the pending Pull is answered *)
+             destruct (it pos) as [v|] eqn:Eit.
+             ++ assert (Hres : resume o FiLoop (cst c) =
+                       ({| fi_pos := S pos; fi_in_loop := true; fi_got_pull := false;
+                           fi_completed := false; fi_res_done := false |},
+                        [ONext (Some v)], ACall (CDn 0 (DD v)) FiLoop)).
+                { rewrite Ecst. cbn. unfold fi_loop. cbn. now rewrite Eit. }
+                after_ret c Hlive Hst Hres Esk.
+                constructor; rewrite ?Hc, ?Hsk, ?Hcr, ?Ht, ?pin_step, ?dout_step; cbn; done_.
+             ++ assert (Hres : resume o FiLoop (cst c) =
+                       ({| fi_pos := S pos; fi_in_loop := true; fi_got_pull := false;
+                           fi_completed := false; fi_res_done := true |},
+                        [ONext None], ACall (CDn 0 DT) FiAfterBreak)).
+                { rewrite Ecst. cbn. unfold fi_loop. cbn. now rewrite Eit. }
+                after_ret c Hlive Hst Hres Esk.
+                apply sinv_over. now rewrite Hsk.
+          -- (* leave the loop: no Pull is pending *)
+             assert (Hres : resume o FiLoop (cst c) =
+                     ({| fi_pos := pos; fi_in_loop := false; fi_got_pull := false;
+                         fi_completed := false; fi_res_done := false |}, [], ARet)).
+             { rewrite Ecst. reflexivity. }
+             after_ret c Hlive Hst Hres Esk.
+             constructor; rewrite ?Hc, ?Hsk, ?Hcr, ?Ht, ?pin_step, ?dout_step; cbn; done_.
+  Qed.
+
+  Lemma fi_served (c : cfg o) :
+    reach p g_std c -> stack c = [] -> sk (ms c) 0 = SLive -> pin (trace c) = dout (trace c).
+  Proof.
+    intros Hr Hst Hl.
+    pose proof (Inv_from_iter.i_shape (Inv_from_iter.inv_reach Hns Hc14 Hr)) as Hshape.
+    destruct (si_reach Hr) as [_ IG IC].
+    assert (Hil : fi_in_loop (cst c) = false).
+    { destruct Hshape as (b & Hb & [(Hil & _) | [(_ & _ & v0 & Hs) | (_ & _ & Hs)]]);
+        [exact Hil | rewrite Hst in Hs; discriminate | rewrite Hst in Hs; discriminate]. }
+    destruct (IC Hl) as [Hn _]. rewrite (IG Hl Hil) in Hn. unfold flag in Hn. lia.
+  Qed.
+
+  Lemma fi_calls : calls_sat only_dn o.
+  Proof.
+    split.
+    - intros i s s' os c k Hh. cbn in Hh. unfold only_dn.
+      destruct i as [[|s0] aux|[|s0] [|e|]|i d|s0]; cbn in Hh; unfold fi_loop in Hh; cbn in Hh;
+        repeat match type of Hh with
+               | context [if ?b then _ else _] => destruct b; cbn in Hh
+               | context [match it ?n with _ => _ end] => destruct (it n); cbn in Hh
+               end;
+        inversion Hh; subst; eauto.
+    - intros fr s s' os c k Hh. cbn in Hh. unfold only_dn.
+      destruct fr; cbn in Hh; unfold fi_loop in Hh; cbn in Hh;
+        repeat match type of Hh with
+               | context [if ?b then _ else _] => destruct b; cbn in Hh
+               | context [match it ?n with _ => _ end] => destruct (it n); cbn in Hh
+               end;
+        inversion Hh; subst; eauto.
+  Qed.
+End FromIterFlow.
+
+Theorem from_iter_source_flow (it : nat -> option val) p :
+  nsinks p = 1 -> resub p = false -> no_nest p = true -> c14 p = false -> one_pull p = true ->
+  source_flow (from_iter_op it) p.
+Proof.
+  intros H1 _ _ H4 H5. constructor.
+  - intros c Hr Hst Hl. exact (fi_served H1 H4 H5 Hr Hst Hl).
+  - apply fi_calls.
+Qed.
+Print Assumptions from_iter_source_flow.
+
+(** ** Non-vacuity: conformant scripts of the two regimes that end at rest with the
+    counts the records speak about *)
+Module FlowEndsSanity.
+  Definition pk : mparams :=
+    {| nsinks := 1; late_ok := false; pullable := false; one_pull := false;
+       resub := false; no_nest := false; c14 := false |}.
+  Definition k_script : list move :=
+    [MIn (ISub 0 0); MIn (IDn 0 DH); MIn (IDn 0 (DD (VN 1))); MIn (IDn 0 (DD (VN 2)));
+     MIn (IDn 0 DT); MRet; MRet; MRet; MRet].
+  Example k_ok :
+    all_enabled pk g_std (cfg0 for_each_op) k_script = true /\
+    let c := run pk for_each_op k_script in
+    stack c = [] /\ pout (trace c) = 3 /\ hin (trace c) = 1 /\ din (trace c) = 2 /\
+    us (ms c) 0 = UEnded /\ subd (ms c) 0 = true.
+  Proof. vm_compute. repeat split; reflexivity. Qed.
+
+  Definition ex_it (k : nat) : option val := if k <? 2 then Some (VN k) else None.
+  Definition pr : mparams :=
+    {| nsinks := 1; late_ok := false; pullable := false; one_pull := true;
+       resub := false; no_nest := true; c14 := false |}.
+  Definition r_script : list move :=
+    [MIn (ISub 0 0); MIn (IUp 0 UP); MIn (IUp 0 UP); MRet; MRet; MRet].
+  Example r_ok :
+    all_enabled pr g_std (cfg0 (from_iter_op ex_it)) r_script = true /\
+    let c := run pr (from_iter_op ex_it) r_script in
+    stack c = [] /\ sk (ms c) 0 = SLive /\ pin (trace c) = 2 /\ dout (trace c) = 2.
+  Proof. vm_compute. repeat split; reflexivity. Qed.
+
+  (** [one_pull] is needed: without it two Pulls sent from inside one Data delivery are
+      coalesced (served by one item), and the run rests with the sink live, 3 Pulls, 2 data *)
+  Definition pr_many : mparams :=
+    {| nsinks := 1; late_ok := false; pullable := false; one_pull := false;
+       resub := false; no_nest := true; c14 := false |}.
+  Definition coalescing_script : list move :=
+    [MIn (ISub 0 0); MIn (IUp 0 UP); MIn (IUp 0 UP); MIn (IUp 0 UP); MRet; MRet; MRet].
+  Example coalescing_without_one_pull :
+    all_enabled pr_many g_std (cfg0 (from_iter_op ex_it)) coalescing_script = true /\
+    let c := run pr_many (from_iter_op ex_it) coalescing_script in
+    stack c = [] /\ sk (ms c) 0 = SLive /\ pin (trace c) = 3 /\ dout (trace c) = 2.
+  Proof. vm_compute. repeat split; reflexivity. Qed.
+End FlowEndsSanity.
